@@ -9,6 +9,7 @@ code as it stands at the pinned commit is transcribed as `clamp = false` with
 `policyUnfixed`; `unfixed_panics` and `unfixed_livelocks` evaluate it on the two witnesses.
 -/
 import NriModel.Lemmas.SyncChunkPolicy
+import NriModel.Lemmas.SyncChunkTrace
 
 namespace Nri.Props.C09
 
@@ -175,6 +176,38 @@ theorem C09_policy (m : Nat) (hm : 2 ≤ m) : Shrinks m (policyFixed m) :=
   policyFixed_shrinks m hm
 
 example : ∃ π, Shrinks 8 π := ⟨policyFixed 8, C09_policy 8 (by decide)⟩
+
+/-! ### Trace acceptance (what ties the sender model to the real executions) -/
+
+/-- **C09_trace_sound.** `accepts tr → Property tr`: a list of attempts the acceptor takes
+    for a successful synchronisation of the supplied state got a valid plan through —
+    whatever counts the real sender chose after each refusal. -/
+theorem C09_trace_sound [DecidableEq α] [DecidableEq β] (fitsOk : Chunk α β → Bool)
+    (rejOk : Chunk α β → Nat → Bool) (m : Nat) (pods : List α) (ctrs : List β)
+    (evs : List (Ev α β υ))
+    (h : acceptsTrace fitsOk rejOk m .done (SState.init pods ctrs) evs = true) :
+    ValidPlan (fun c => fitsOk c = true) pods ctrs (plan evs) :=
+  acceptsTrace_sound fitsOk rejOk m evs _ (good_init pods ctrs) h
+
+/-- **C09_trace_complete.** The acceptor admits every behaviour of the model: each finished
+    run of the repaired loop, for every policy with `Shrinks m`, is accepted (so a rejected
+    real execution is one the model cannot produce under any such policy). -/
+theorem C09_trace_complete [DecidableEq α] [DecidableEq β] (E : Env α β υ ε σ) (m : Nat)
+    (hc : E.clamp = true) (hπ : Shrinks m E.policy) (hlim : 0 < E.limit) (fuel : Nat) (w : σ)
+    (pods : List α) (ctrs : List β) (hf : fuelBound pods ctrs ≤ fuel) :
+    acceptsTrace (fun c => decide (E.size c ≤ E.limit))
+      (fun c len => decide (E.limit < len) && decide (len = E.size c)) m
+      (endOf (synchronize E fuel w pods ctrs).out) (SState.init pods ctrs)
+      (synchronize E fuel w pods ctrs).evs = true := by
+  have h1 := (C09_no_fault E m hc hπ fuel w pods ctrs).1
+  have h2 := C09_terminates E m hc hπ fuel w pods ctrs hf
+  have hfin : finished (synchronize E fuel w pods ctrs).out := by
+    cases ho : (synchronize E fuel w pods ctrs).out with
+    | done u => trivial
+    | failed e => trivial
+    | fault => exact absurd ho h1
+    | outOfFuel => exact absurd ho h2
+  exact (run_accepted E m hc hπ hlim fuel w _ (good_init pods ctrs) hfin).2
 
 /-! ### Activation -/
 
